@@ -1004,7 +1004,10 @@ func (x *Exec) loopInvariants(fr *Frame, ord int) []*Clause {
 func (x *Exec) enterLoop(fr *Frame, li *loopInfo, entry *State) *State {
 	ord, node := x.loopOrdinalOf(fr, li)
 	if ord < 0 {
-		x.unsup("the loop structure of %s changed: loop %q has no counterpart in the recorded loop map (contract unbound)", fr.key, x.env.loopHeader(node))
+		// a loop the contract does not know (added since the loop map was recorded): it is cut with
+		// the automatic invariants only - everything it may modify is forgotten. Sound; what the
+		// function's clauses need from it must then be re-proved by an invariant a reviewer adds.
+		x.note(fmt.Sprintf("loop %q of %s has no counterpart in the recorded loop map: cut without a declared invariant", x.env.loopHeader(node), fr.key))
 	}
 	invs := x.loopInvariants(fr, ord)
 	pos := token.NoPos
